@@ -116,12 +116,16 @@ fn judge_stationary<T: Sc>(idx: usize, l: &StLine, rep: &mut Report) {
     // the instance itself and its scaled-residual twins (VPStats!ScaleLaw): r0 * 2^-k
     let ks: &[i32] = if T::NAME == "f64" { &[0, 20, 30] } else { &[0, 8] };
     for &k in ks {
-        judge_stationary_scaled::<T>(idx, l, k, rep);
+        judge_stationary_scaled::<T>(idx, l, k, 0, rep);
     }
+    // weight-scaled twins (VPStats!WeightScaleLaw): w * 2^-k; chi2 scales, Cov / band / correlation do not
+    let wk = if T::NAME == "f64" { 14 } else { 5 };
+    judge_stationary_scaled::<T>(idx, l, 0, wk, rep);
 }
 
-fn judge_stationary_scaled<T: Sc>(idx: usize, l: &StLine, kexp: i32, rep: &mut Report) {
+fn judge_stationary_scaled<T: Sc>(idx: usize, l: &StLine, kexp: i32, wexp: i32, rep: &mut Report) {
     let t = (2.0f64).powi(-kexp);
+    let tw = (2.0f64).powi(-wexp);
     let n = l.x.len();
     let (m, p) = (l.fam.m, l.fam.p);
     let table = table_of::<T>(&l.fam, &l.a, &l.phi, &l.dphi, n);
@@ -131,8 +135,14 @@ fn judge_stationary_scaled<T: Sc>(idx: usize, l: &StLine, kexp: i32, rep: &mut R
     if (0..n).any(|i| y[(i, 0)].to64() != (l.y[i] - l.r0[i]) as f64 + t * l.r0[i] as f64) {
         return; // not exact in this scalar type
     }
-    let w: Option<Vec<T>> = if l.w.is_empty() { None } else { Some(l.w.iter().map(|&v| T::of64(v as f64)).collect()) };
-    let tol = if kexp == 0 { T::tol() } else { T::tol() * 100.0 };
+    let w: Option<Vec<T>> = if wexp != 0 {
+        Some((0..n).map(|i| T::of64(tw * if l.w.is_empty() { 1.0 } else { l.w[i] as f64 })).collect())
+    } else if l.w.is_empty() {
+        None
+    } else {
+        Some(l.w.iter().map(|&v| T::of64(v as f64)).collect())
+    };
+    let tol = if kexp == 0 && wexp == 0 { T::tol() } else { T::tol() * 100.0 };
     let band_tol = if T::NAME == "f64" { 2e-4 } else { 5e-3 };
     let mut kinds = vec![MKind::Table, MKind::TableBuilt];
     if poly_is_family(&l.fam.name) {
@@ -142,10 +152,13 @@ fn judge_stationary_scaled<T: Sc>(idx: usize, l: &StLine, kexp: i32, rep: &mut R
     let ps: Vec<f64> = l.pnum.iter().map(|&v| v as f64 / 1000.0).collect();
     let nu = l.nu as f64;
     let deth = l.deth as f64;
-    let rr = l.rr as f64 * t * t;
+    // |rw|^2 scales with both factors; det and adj scale with the weights but their ratio
+    // rr*adj/(nu*det) does not (handled by using rr0 for covariance-like quantities)
+    let rr0 = l.rr as f64 * t * t;
+    let rr = rr0 * tw * tw;
     for (ki, &kind) in kinds.iter().enumerate() {
         let par = (idx + ki) % 2 == 1;
-        let flav = format!("line={} fam={}({},{},{}) {} {:?} par={} rscale=2^-{}", idx, l.fam.name, m, p, l.fam.seed, T::NAME, kind, par, kexp);
+        let flav = format!("line={} fam={}({},{},{}) {} {:?} par={} rscale=2^-{} wscale=2^-{}", idx, l.fam.name, m, p, l.fam.seed, T::NAME, kind, par, kexp, wexp);
         let det = |what: &str, dv: f64| json!({"flavour": flav, "what": what, "dev": dv, "a": l.a, "c": l.c, "r0": l.r0, "w": l.w});
         let prob = match make::<T>(kind, &l.fam, &table, &xs, &l.a, &y, w.as_deref(), par) {
             Ok(p) => p,
@@ -165,7 +178,7 @@ fn judge_stationary_scaled<T: Sc>(idx: usize, l: &StLine, kexp: i32, rep: &mut R
         };
         // the start is exactly stationary: the fit must stop there after one evaluation
         if !(out.fit.nfev == 1 && out.fit.termination == "Orthogonal") {
-            rep.count(if kexp == 0 { "not_stationary_numerically" } else { "scaled_twin_not_stationary_numerically" }, 1);
+            rep.count(if kexp == 0 && wexp == 0 { "not_stationary_numerically" } else { "scaled_twin_not_stationary_numerically" }, 1);
             if rep.notes.len() < 3 {
                 rep.notes.push(format!("instance left the lattice: {} term={} nfev={}", flav, out.fit.termination, out.fit.nfev));
             }
@@ -188,8 +201,8 @@ fn judge_stationary_scaled<T: Sc>(idx: usize, l: &StLine, kexp: i32, rep: &mut R
         let mut worst = 0.0f64;
         if st.wres.len() == l.rw.len() {
             for i in 0..n {
-                let e = l.rw[i] as f64 * t;
-                worst = worst.max((st.wres[i].to64() - e).abs() / e.abs().max(t));
+                let e = l.rw[i] as f64 * t * tw;
+                worst = worst.max((st.wres[i].to64() - e).abs() / e.abs().max(t * tw));
             }
         } else {
             worst = f64::INFINITY;
@@ -207,12 +220,12 @@ fn judge_stationary_scaled<T: Sc>(idx: usize, l: &StLine, kexp: i32, rep: &mut R
         let shape_ok = st.cov.nrows() == k && st.cov.ncols() == k;
         rep.check("C13", shape_ok, 0.0, || det("covariance shape", 0.0));
         if shape_ok {
-            let scale = (0..k).flat_map(|i| (0..k).map(move |j| (i, j))).fold(0.0f64, |mx, (i, j)| mx.max((rr * l.adj[i][j] as f64 / (nu * deth)).abs()));
+            let scale = (0..k).flat_map(|i| (0..k).map(move |j| (i, j))).fold(0.0f64, |mx, (i, j)| mx.max((rr0 * l.adj[i][j] as f64 / (nu * deth)).abs()));
             let mut worst = 0.0f64;
             let mut asym = 0.0f64;
             for i in 0..k {
                 for j in 0..k {
-                    let e = rr * l.adj[i][j] as f64 / (nu * deth);
+                    let e = rr0 * l.adj[i][j] as f64 / (nu * deth);
                     worst = worst.max((st.cov[(i, j)].to64() - e).abs() / scale);
                     asym = asym.max((st.cov[(i, j)].to64() - st.cov[(j, i)].to64()).abs() / scale);
                 }
@@ -259,12 +272,12 @@ fn judge_stationary_scaled<T: Sc>(idx: usize, l: &StLine, kexp: i32, rep: &mut R
             let mut ok = band.len() == n;
             if ok {
                 for i in 0..n {
-                    let e = t * (rr * l.quad[i] as f64 / (nu * deth)).sqrt();
+                    let e = t * (rr0 * l.quad[i] as f64 / (nu * deth)).sqrt();
                     let g = band[i].to64();
                     if !g.is_finite() || g < 0.0 {
                         ok = false;
                     }
-                    let scale = t * (rr / (nu * deth)).sqrt() * (l.quad.iter().cloned().max().unwrap_or(1) as f64).sqrt();
+                    let scale = t * (rr0 / (nu * deth)).sqrt() * (l.quad.iter().cloned().max().unwrap_or(1) as f64).sqrt();
                     worst = worst.max((g - e).abs() / scale.max(1e-300));
                 }
                 if let Some(pr) = &prev {
